@@ -37,7 +37,7 @@ for pr in props:
 hooks_commits = []
 hp = os.path.join(ROOT, "checks", "hook_commits.txt")
 if os.path.exists(hp):
-    hooks_commits = [l.strip() for l in open(hp) if l.strip()]
+    hooks_commits = [l.split()[0] for l in open(hp) if l.strip()]
 man = dict(
     version=1,
     setup_cmd="./setup.sh",
